@@ -514,3 +514,17 @@ func VH_C02_rawcbor() {
 	zzverif.Assert(zzverif.EqualBytes(got, want), "RawCBOR is logged as data:application/cbor;base64, followed by the standard padded base64 of the payload")
 	zzverif.Reach("C02/rawcbor")
 }
+
+// Multi-byte text at the quick bound: a fixed two-byte prefix of a three-byte (or four-byte) rune
+// plus one symbolic byte covers whole rune classes (U+2000..U+203F incl. the line and paragraph
+// separators, the surrogate range, U+FFC0..U+FFFF, a four-byte rune) between two ASCII bytes.
+func VH_C02_string_multibyte() {
+	pre := [][]byte{{0xE2, 0x80}, {0xED, 0x9F}, {0xED, 0xA0}, {0xEF, 0xBF}, {0xF0, 0x9F, 0x98}}[zzverif.Choice(5)]
+	s := append(append([]byte{'a'}, pre...), zzverif.Byte(), 'b')
+	out := vE.AppendString(nil, string(s))
+	dec, ok := vUnquote(out)
+	zzverif.Assert(ok, "AppendString output is a well-formed string literal")
+	zzverif.Assert(zzverif.EqualBytes(dec, vSanitize(s)), "text decodes back exactly (each invalid UTF-8 byte becomes U+FFFD)")
+	zzverif.Assert(zzverif.EqualBytes(vE.AppendBytes(nil, s), out), "AppendBytes(b) == AppendString(string(b))")
+	zzverif.Reach("C02/string-multibyte")
+}
